@@ -85,6 +85,8 @@ fn run_phase(rep: &Report, cli: &Cli, name: &str, bias_v: i32, n: usize, make: &
                 return;
             }
             st.0 += 1;
+            let scope_desc = || case.desc();
+            let _scope = mc_core::run::case_scope(&scope_desc);
             if run_case(rep, cli.seed, &case) {
                 st.1 += 1;
                 st.2.push(hash_desc(&case.desc()));
